@@ -114,6 +114,18 @@ func (s *state) removeTorrent(h core.InfoHash, err error) {
 		if err := s.sched.torrentArchive.DeleteTorrent(ctrl.dispatcher.Digest()); err != nil {
 			s.sched.log().Errorf("Error deleting torrent from archive: %s", err)
 		}
+	} else {
+		// A completed torrent leaves the announce queue with its completion event,
+		// which can no longer be relied on once the torrent control is gone.
+		s.announceQueue.Eject(h)
+		// The dispatcher completed, but its completion event may not have been
+		// applied yet (it is sent from the dispatcher's own goroutine). Once the
+		// torrent control is gone that event can no longer find the waiting
+		// download requests, so they must be answered here: the blob is in cache.
+		for _, errc := range ctrl.errors {
+			errc <- nil
+		}
+		ctrl.errors = nil
 	}
 	delete(s.torrentControls, h)
 }
